@@ -7,7 +7,9 @@ From Coq Require Import List Bool Arith.
 From Coq Require Import ZArith.
 From BB.Model Require Import CleanerProto.
 From BB.Model Require Cleaner Buffer.
-From BB.Proofs Require CleanerProto Buffer BufferClean.
+From BB.Model Require GoFrag.
+From BB.Gen Require ImplCleaners.
+From BB.Proofs Require CleanerProto Buffer BufferClean CleanerGen.
 Import ListNotations.
 
 (* In every reachable state where nothing can move any more (timers included), no change is left unseen by the cleaner:
@@ -99,4 +101,18 @@ Theorem C04_fixed_retains_consumed_refuted :
     base (clean s) = 10%nat.
 Proof. exact Proofs.BufferClean.fixed_retains_consumed_refuted. Qed.
 Print Assumptions C04_fixed_retains_consumed_refuted.
+(* the cleaner functions these theorems are about are the ones in the current source: translated from bigbuff.go on every
+   run (harness/cmd/gotr) and proved equal to the model functions for every input (see Properties/C03.v) *)
+Theorem C04_DefaultCleaner_source_is_model : forall size offsets,
+  GoFrag.call [] BB.Gen.ImplCleaners.DefaultCleaner_def [GoFrag.VInt size; GoFrag.VList offsets]
+  = Some (GoFrag.VInt (Cleaner.default_cleaner size offsets)).
+Proof. exact Proofs.CleanerGen.DefaultCleaner_src_eq_model. Qed.
+Print Assumptions C04_DefaultCleaner_source_is_model.
+
+Theorem C04_FixedBufferCleaner_source_is_model : forall max target cb size offsets,
+  GoFrag.call Proofs.CleanerGen.fe1 BB.Gen.ImplCleaners.FixedBufferCleaner_def
+    [GoFrag.VInt max; GoFrag.VInt target; GoFrag.VFunc cb; GoFrag.VInt size; GoFrag.VList offsets]
+  = Some (GoFrag.VInt (Cleaner.fixed_cleaner max target size offsets)).
+Proof. exact Proofs.CleanerGen.FixedBufferCleaner_src_eq_model. Qed.
+Print Assumptions C04_FixedBufferCleaner_source_is_model.
 End BufferLevel.
